@@ -112,7 +112,7 @@ GOAL == <<"goal", "-">>
 S(i) == <<"state", i>>
 OCC(i) == <<"occupancy", i>>
 
-World == <<
+BaseWorld == <<
   C("lanelet_left",   "none", <<SC, NET, L1>>, << <<0, 2>>, <<4, 2>>, <<8, 3>> >>, <<>>),
   C("lanelet_center", "none", <<SC, NET, L1>>, << <<0, 1>>, <<4, 1>>, <<8, 2>> >>, <<>>),
   C("lanelet_right",  "none", <<SC, NET, L1>>, << <<0, 0>>, <<4, 0>>, <<8, 1>> >>, <<>>),
@@ -154,6 +154,29 @@ World == <<
   C("pp_init",        "none", <<PPS, PP32, ST>>, << <<-3, -3>> >>, << <<0, -1, 1>> >>),
   C("goal_shape",     "none", <<PPS, PP32, GOAL, S("0")>>, << <<-6, -6>> >>, << <<1, 0, 1>> >>)
 >>
+(* Rectangles export their planar geometry as corner points (public `vertices`, computed on demand from centre, size  *)
+(* and orientation and possibly cached).  The exported corners are stored points too: they must move with the        *)
+(* rectangle.  Corner = centre + R(orientation)(+-half length, +-half width), in the order of the public accessor;     *)
+(* the reference rectangles have sizes for which the corners are integer points.                                       *)
+(* entry: <<parent kind, role, path, centre, half length, half width, orientation token>>                              *)
+Rects == <<
+  <<"occ_rect",      "dynamic",     <<SC, OD23, PRED, OCC("0"), <<"shape_rect", "-">> >>,  <<3, -3>>,  10, 5, <<4, 3, 5>> >>,
+  <<"occ_group",     "dynamic",     <<SC, OD23, PRED, OCC("3"), <<"shape_group", "-">> >>, <<10, -3>>, 2, 1,  <<0, 1, 1>> >>,
+  <<"uncertain_pos", "dynamic",     <<SC, OD24, ST>>,                                      <<-5, 5>>,  10, 5, <<3, 4, 5>> >>,
+  <<"phantom_occ",   "phantom",     <<SC, OP26, PRED, OCC("0")>>,                          <<-10, 0>>, 10, 5, <<-3, 4, 5>> >>,
+  <<"env_shape",     "environment", <<SC, OE28>>,                                          <<26, 14>>, 10, 5, <<4, -3, 5>> >>,
+  <<"goal_shape",    "none",        <<PPS, PP31, GOAL, S("0")>>,                           <<12, 4>>,  10, 5, <<3, 4, 5>> >>,
+  <<"goal_shape",    "none",        <<PPS, PP32, GOAL, S("0")>>,                           <<-6, -6>>, 1, 1,  <<1, 0, 1>> >>
+>>
+Corner(ctr, lx, ly, o) == <<ctr[1] + (lx * o[1] - ly * o[2]) \div o[3], ctr[2] + (lx * o[2] + ly * o[1]) \div o[3]>>
+RectCorners(r) == << Corner(r[4], -r[5], -r[6], r[7]), Corner(r[4], -r[5], r[6], r[7]),
+                     Corner(r[4], r[5], r[6], r[7]),   Corner(r[4], r[5], -r[6], r[7]) >>
+ASSUME \A i \in DOMAIN Rects : LET r == Rects[i] IN
+          /\ \A lx \in {-r[5], r[5]}, ly \in {-r[6], r[6]} :
+                 (lx * r[7][1] - ly * r[7][2]) % r[7][3] = 0 /\ (lx * r[7][2] + ly * r[7][1]) % r[7][3] = 0
+          /\ \E j \in DOMAIN BaseWorld : /\ BaseWorld[j].kind = r[1] /\ BaseWorld[j].path = r[3] /\ BaseWorld[j].role = r[2]
+                                         /\ r[4] \in Range(BaseWorld[j].pts) /\ r[7] \in Range(BaseWorld[j].oris)
+World == BaseWorld \o [i \in DOMAIN Rects |-> C("rect_corners/" \o Rects[i][1], Rects[i][2], Rects[i][3], RectCorners(Rects[i]), <<>>)]
 (* components whose points form a polygon (signed area law) *)
 IsPoly(c) == c.kind \in {"occ_polygon", "goal_lanelet", "lanelet_polygon"} \/ (c.kind \in {"env_shape", "phantom_occ", "goal_shape"} /\ Len(c.pts) >= 3)
 
